@@ -1,4 +1,5 @@
 import CotengraVerif.Lemmas.SimsProc
+import CotengraVerif.Lemmas.SlicerTree
 import CotengraVerif.Lemmas.HyperGraph
 
 /-!
@@ -231,5 +232,160 @@ theorem proc_eq_tree (n : Net) (B : List Ix) (leafL : Nat → PLegs) (l r : BT)
           simpa using this
   · intro x
     rw [proc_keys_eq_tree n B leafL _ hd hb hl x, Net.mem_legs_iff_surv n B _ hd hb x]
+
+
+/-! ## indices on all tensors (`simplify_batch`) and the reported flops -/
+
+/-- `ix` occurs in every input tensor -/
+def OnAll (n : Net) (ix : Ix) : Prop := ∀ i, i < n.inputs.length → ix ∈ n.term i
+
+theorem leaves_ne_nil (t : BT) : t.leaves ≠ [] := by
+  induction t with
+  | leaf i => simp [BT.leaves]
+  | node l r ihl _ => simp [BT.leaves, ihl]
+
+theorem cnt_pos_of_onAll (n : Net) (rm : List Ix) (t : BT) (hb : ∀ i ∈ t.leaves, i < n.inputs.length)
+    (ix : Ix) (hon : OnAll n ix) (hrm : ix ∉ rm) : 0 < n.cnt rm t ix := by
+  obtain ⟨i, hi⟩ := List.exists_mem_of_ne_nil _ (leaves_ne_nil t)
+  exact Slicer.cnt_pos_of_occ n rm t ix i hi (hon i (hb i hi)) hrm
+
+/-- an index on all tensors is involved in every contraction step -/
+theorem surv_of_onAll (n : Net) (rm : List Ix) (l r : BT) (hd : (BT.node l r).leaves.Nodup)
+    (hb : ∀ i ∈ (BT.node l r).leaves, i < n.inputs.length) (ix : Ix) (hon : OnAll n ix) (hrm : ix ∉ rm) :
+    n.Surv rm l ix := by
+  have hbl : ∀ i ∈ l.leaves, i < n.inputs.length := fun i hi => hb i (by simp [BT.leaves, hi])
+  have hbr : ∀ i ∈ r.leaves, i < n.inputs.length := fun i hi => hb i (by simp [BT.leaves, hi])
+  have h1 := cnt_pos_of_onAll n rm l hbl ix hon hrm
+  have h2 := cnt_pos_of_onAll n rm r hbr ix hon hrm
+  have hle := cnt_le_appIn n rm (.node l r) hd hb ix
+  rw [cnt_node] at hle
+  unfold Surv app
+  omega
+
+theorem termRm_congr (n : Net) (rm rm' : List Ix) (h : ∀ x, x ∈ rm ↔ x ∈ rm') (i : Nat) :
+    n.termRm rm i = n.termRm rm' i := by
+  unfold termRm
+  apply List.filter_congr
+  intro x _
+  by_cases hx : x ∈ rm
+  · have hx' := (h x).1 hx
+    simp [hx, hx']
+  · have hx' : x ∉ rm' := fun e => hx ((h x).2 e)
+    simp [hx, hx']
+
+theorem legs_congr (n : Net) (rm rm' : List Ix) (h : ∀ x, x ∈ rm ↔ x ∈ rm') (t : BT) :
+    n.legs rm t = n.legs rm' t := by
+  induction t with
+  | leaf i =>
+    show n.leafLegs rm i = n.leafLegs rm' i
+    unfold leafLegs leafLegsPre
+    rw [termRm_congr n rm rm' h i]
+  | node l r ihl ihr => simp only [legs, ihl, ihr]
+
+theorem nodeFlops_congr (n : Net) (rm rm' : List Ix) (h : ∀ x, x ∈ rm ↔ x ∈ rm') (t : BT) :
+    n.nodeFlops rm t = n.nodeFlops rm' t := by
+  cases t with
+  | leaf i => rfl
+  | node l r =>
+    show n.sizeOfLegs (Legs.union (n.legs rm l) (n.legs rm r)) = n.sizeOfLegs (Legs.union (n.legs rm' l) (n.legs rm' r))
+    rw [legs_congr n rm rm' h l, legs_congr n rm rm' h r]
+
+theorem prodSizes_cons (n : Net) (ix : Ix) (B : List Ix) : n.prodSizes (ix :: B) = n.size ix * n.prodSizes B := by
+  unfold prodSizes
+  rw [← List.prod_eq_foldl, ← List.prod_eq_foldl]
+  simp
+
+/-- **batch_factor.** Let `B` be distinct indices that sit on every input tensor (what
+    `simplify_batch` removes). Every contraction step of every tree costs, on the full network,
+    exactly `∏ size(B)` times what it costs on the network with `B` removed. -/
+theorem batch_factor (n : Net) (B rm : List Ix) (hB : B.Nodup) (hall : ∀ ix ∈ B, OnAll n ix ∧ ix ∉ rm)
+    (l r : BT) (hd : (BT.node l r).leaves.Nodup) (hb : ∀ i ∈ (BT.node l r).leaves, i < n.inputs.length) :
+    n.nodeFlops rm (.node l r) = n.prodSizes B * n.nodeFlops (B ++ rm) (.node l r) := by
+  induction B generalizing rm with
+  | nil => simp [prodSizes]
+  | cons ix0 B' ih =>
+    have hnd := List.nodup_cons.1 hB
+    have h0 := hall ix0 List.mem_cons_self
+    have hs := C03.slice_flops n rm ix0 l r hd hb
+    have hsurv := surv_of_onAll n rm l r hd hb ix0 h0.1 h0.2
+    rw [if_pos (Or.inl hsurv)] at hs
+    have ih' := ih (ix0 :: rm) hnd.2 (by
+      intro ix hix
+      refine ⟨(hall ix (List.mem_cons_of_mem _ hix)).1, ?_⟩
+      intro hm
+      rcases List.mem_cons.1 hm with e | e
+      · subst e; exact hnd.1 hix
+      · exact (hall ix (List.mem_cons_of_mem _ hix)).2 e)
+    have hc : n.nodeFlops (B' ++ ix0 :: rm) (.node l r) = n.nodeFlops (ix0 :: B' ++ rm) (.node l r) := by
+      apply nodeFlops_congr
+      intro x; simp only [List.mem_append, List.mem_cons, List.cons_append]
+      constructor
+      · rintro (h | h | h)
+        · exact Or.inr (Or.inl h)
+        · exact Or.inl h
+        · exact Or.inr (Or.inr h)
+      · rintro (h | h | h)
+        · exact Or.inr (Or.inl h)
+        · exact Or.inl h
+        · exact Or.inr (Or.inr h)
+    rw [← hs, ih', hc, prodSizes_cons]
+    ring
+
+/-- total flops the processor accumulates along a tree (`cp.flops` with `track_flops`) -/
+def procTotal (n : Net) (leafL : Nat → PLegs) (t : BT) : Nat := (t.internal.map (procFlops n leafL)).sum
+
+theorem sum_map_mul (c : Nat) (l : List BT) (f : BT → Nat) : (l.map fun s => c * f s).sum = c * (l.map f).sum := by
+  induction l with
+  | nil => simp
+  | cons a t ih => simp only [List.map_cons, List.sum_cons, ih]; ring
+
+/-- **reported_flops_batch.** What `RandomGreedyOptimizer.best_flops` reports (`cp.flops`, the sum
+    of `compute_flops` over the steps after `simplify_batch`) times the dimensions of the indices
+    on all tensors is `tree.total_flops()` of the tree built from the same path. -/
+theorem reported_flops_batch (n : Net) (B : List Ix) (hB : B.Nodup) (hall : ∀ ix ∈ B, OnAll n ix)
+    (leafL : Nat → PLegs) (t : BT) (hd : t.leaves.Nodup) (hb : ∀ i ∈ t.leaves, i < n.inputs.length)
+    (hl : ∀ i ∈ t.leaves, LeafSpec n B leafL i) :
+    (n.stats [] [] t).flops = n.prodSizes B * procTotal n leafL t := by
+  unfold stats procTotal
+  simp only [mult, prodSizes, List.map_nil, List.foldl_nil, Nat.one_mul]
+  rw [← sum_map_mul]
+  congr 1
+  apply List.map_congr_left
+  intro s hs
+  obtain ⟨l, r, rfl⟩ := C03.internal_is_node t s hs
+  have hsub := C03.internal_leaves_sublist t _ hs
+  have hd' := hd.sublist hsub
+  have hb' : ∀ i ∈ (BT.node l r).leaves, i < n.inputs.length := fun i hi => hb i (hsub.subset hi)
+  have hl' : ∀ i ∈ (BT.node l r).leaves, LeafSpec n B leafL i := fun i hi => hl i (hsub.subset hi)
+  have bf := batch_factor n B [] hB (fun ix hix => ⟨hall ix hix, by simp⟩) l r hd' hb'
+  rw [List.append_nil] at bf
+  rw [bf, (proc_eq_tree n B leafL l r hd' hb' hl').2.1]
+  rfl
+
+/-- **reported_flops_partial**: the property's claim ("the reported cost equals the cost of the
+    tree built from the returned path") under the guard that no index sits on all tensors.
+    Full statement (false, see the counter-example): `(n.stats [] [] t).flops = procTotal n leafL t`
+    for every network. -/
+theorem reported_flops_partial (n : Net) (leafL : Nat → PLegs) (t : BT) (hd : t.leaves.Nodup)
+    (hb : ∀ i ∈ t.leaves, i < n.inputs.length) (hl : ∀ i ∈ t.leaves, LeafSpec n [] leafL i) :
+    (n.stats [] [] t).flops = procTotal n leafL t := by
+  have := reported_flops_batch n [] List.nodup_nil (fun _ h => by cases h) leafL t hd hb hl
+  simpa [prodSizes] using this
+
+/-- the processor's leaf legs: initial sorted legs, batch indices removed (`remove_ix`), then
+    `compute_simplified` -/
+def procLeaf (n : Net) (B : List Ix) (i : Nat) : PLegs :=
+  Proc.simplified n.app ((Proc.initLegs (n.term i)).filter (fun kv => !B.contains kv.1))
+
+def cexNet : Net := { inputs := [[0, 1], [0, 2], [0, 1, 2]], output := [], sizes := [(0, 2), (1, 3), (2, 3)] }
+def cexTree : BT := .node (.node (.leaf 0) (.leaf 1)) (.leaf 2)
+
+/-- **reported_flops_counterexample**: on `ab,ac,abc->` with `|a| = 2` the processor, after
+    `simplify_batch` removed `a`, accumulates 18 flops while the tree built from the same path
+    has `total_flops = 36`. (Replayed on the implementation by the harness: known finding.) -/
+theorem reported_flops_counterexample :
+    procTotal cexNet (procLeaf cexNet [0]) cexTree = 18 ∧ (cexNet.stats [] [] cexTree).flops = 36 ∧
+    (cexNet.stats [] [] cexTree).flops ≠ procTotal cexNet (procLeaf cexNet [0]) cexTree := by
+  decide
 
 end Cotengra.C18
